@@ -166,6 +166,27 @@ func (p *Pool) Allocate(mac net.HardwareAddr) (net.IP, error) {
 	return ip, nil
 }
 
+// Confirm reports whether ip is the address assigned to mac. A client without an
+// assignment (no preceding DISCOVER) is assigned ip if it is still free.
+func (p *Pool) Confirm(mac net.HardwareAddr, ip net.IP) bool {
+	p.mu.Lock()
+	defer p.mu.Unlock()
+
+	macStr := mac.String()
+	if assigned, exists := p.allocated[macStr]; exists {
+		return assigned.Equal(ip)
+	}
+
+	for i, avail := range p.available {
+		if avail.Equal(ip) {
+			p.available = append(p.available[:i], p.available[i+1:]...)
+			p.allocated[macStr] = avail
+			return true
+		}
+	}
+	return false
+}
+
 // Release releases an IP back to the pool
 func (p *Pool) Release(ip net.IP) {
 	p.mu.Lock()
